@@ -856,6 +856,30 @@ def _check_constants(ctx, rep):
                       "removes `%s` under guard `%s`; convert_var_to_hss re-creates row 0 of the LAST block" % (unparse(dl), guard), node=dl)
     else:
         rep.undecided("I5", f, "np.delete", "expected one np.delete(hs, 0, axis=0)")
+    # Gate: the entries taken out of the stacked vector are exactly the implied first row (d^2 entries from the front)
+    fg = ix.funcs.get(OBJ + "gate.Gate.convert_stacked_vector_to_var")
+    if fg is not None:
+        gdels = [n for n in own_nodes(fg.node) if isinstance(n, ast.Call) and (dotted(n.func) or "").endswith("delete") and len(n.args) == 2]
+        if len(gdels) == 1:
+            a1 = inline(fg, gdels[0].args[1])
+            gsl = None
+            if isinstance(a1, ast.Subscript) and unparse(a1.value) == "np.s_" and isinstance(a1.slice, ast.Slice):
+                gsl = a1.slice
+            elif isinstance(a1, ast.Call) and dotted(a1.func) == "slice" and len(a1.args) in (1, 2):
+                gsl = ast.Slice(lower=a1.args[0] if len(a1.args) == 2 else None, upper=a1.args[-1], step=None)
+            if gsl is not None and gsl.upper is not None:
+                try:
+                    lo = _size_poly(gsl.lower, fg) if gsl.lower is not None else Poly.const(0)
+                    hi = _size_poly(gsl.upper, fg)
+                    rep.check(lo == Poly.const(0) and hi == D2, "I5", fg, gdels[0], "removes entries 0 .. d^2 (the implied first row e0)",
+                              "removes entries %r .. %r; the implied first row of a gate occupies 0 .. d^2 (for d = 2 both agree, for a qutrit or two "
+                              "qubits the variable vector has the wrong length)" % (lo, hi), node=gdels[0])
+                except Undecided as ex:
+                    rep.undecided("I5", fg, gdels[0], str(ex))
+            else:
+                rep.undecided("I5", fg, gdels[0], "removed entries are not given as a slice")
+        else:
+            rep.undecided("I5", fg, "np.delete", "expected one np.delete(stacked_vector, <slice>)")
     f = ix.func(OBJ + "mprocess.MProcess.convert_stacked_vector_to_var")
     dels = [n for n in own_nodes(f.node) if isinstance(n, ast.Call) and (dotted(n.func) or "").endswith("delete")]
     sl = None
